@@ -48,6 +48,20 @@ fn main() {
         println!("MIRI-OK L32 cases={count} start={start} seed={seed} table_entries={}", st.evaluations);
         return;
     }
+    if id == "U32" {
+        // 32-bit-usize stage of C18 (run with --target i686-unknown-linux-gnu): mask helpers for every width and
+        // the basic rounding grid for every subnormal shift, against the exact integer reference
+        println!("MIRI-U32 pointer width = {} bits", usize::BITS);
+        println!("MIRI-CASE U32 masks+grid");
+        match mlv::props::c18::check_width_dependent(&mut st) {
+            Ok(n) => println!("MIRI-OK U32 evaluations={n}"),
+            Err(f) => {
+                println!("MIRI-VIOLATION U32: {}", f.message);
+                std::process::exit(1);
+            }
+        }
+        return;
+    }
     if id == "C08T" {
         // targeted valid inputs (generated natively by `mlv c08t-inputs`, one per line: format, integer,
         // fraction, exponent) parsed under Miri in the stack and heap configurations: uninitialised reads and
